@@ -391,3 +391,35 @@ refactor("gen-explicit-lock-instead-of-macro",
          [(E, "            let items = &lock_deref!(items);\n\n            let mut pairs = Vec::with_capacity(items.len());",
               "            let guard = items.try_lock().unwrap();\n            let items = &*guard;\n\n            let mut pairs = Vec::with_capacity(items.len());")],
          note="lock_deref! expanded by hand in value_to_pairs")
+
+# ---- C16 ---------------------------------------------------------------------
+mutant("c16-plus-accepts-int-and-string",
+       [(E, "                (Value::Str(a), Value::Str(b)) => {\n                    Ok(Value::Str([a.clone(), b.clone()].concat()))\n                },",
+            "                (Value::Str(a), Value::Str(b)) => {\n                    Ok(Value::Str([a.clone(), b.clone()].concat()))\n                },\n                (Value::Str(a), Value::Int(n)) => {\n                    Ok(Value::Str([a.clone(), n.to_string().into_bytes()].concat()))\n                },")],
+       [("C16", "R16.1")])
+mutant("c16-and-on-ints",
+       [(E, "                (Value::Bool(a), Value::Bool(b)) => {\n                    let v =\n                        match op {\n                            BinaryOp::And => *a && *b,",
+            "                (Value::Int(a), Value::Int(b)) => {\n                    Ok(Value::Bool(*a != 0 && *b != 0))\n                },\n                (Value::Bool(a), Value::Bool(b)) => {\n                    let v =\n                        match op {\n                            BinaryOp::And => *a && *b,")],
+       [("C16", "R16.1")])
+mutant("c16-index-accepts-null",
+       [(E, "                _ => {\n                    new_loc_err(Error::ValueNotIndexable)\n                },",
+            "                Value::Null => Ok(value::new_null()),\n\n                _ => {\n                    new_loc_err(Error::ValueNotIndexable)\n                },")],
+       [("C16", "R16.2")])
+mutant("c16-type-name-str",
+       [("src/builtins/type_functions.rs", "            Value::Str(_) => \"string\",", "            Value::Str(_) => \"str\",")],
+       [("C16", "R16.3")])
+mutant("c16-error-operands-swapped",
+       [(E, "            source: Box::new(Error::InvalidOpTypes{\n                op: op.clone(),\n                lhs: lhs.clone(),\n                rhs: rhs.clone(),\n            }),",
+            "            source: Box::new(Error::InvalidOpTypes{\n                op: op.clone(),\n                lhs: rhs.clone(),\n                rhs: lhs.clone(),\n            }),")],
+       [("C16", "R16.4")])
+mutant("c17-new-context-not-peeled",
+       [("src/eval/error.rs", "    EvalExprFailed{\n        #[snafu(source(from(Error, Box::new)))]\n        source: Box<Error>,\n    },",
+         "    EvalExprFailed{\n        #[snafu(source(from(Error, Box::new)))]\n        source: Box<Error>,\n    },\n    EvalSpreadSourceFailed{\n        #[snafu(source(from(Error, Box::new)))]\n        source: Box<Error>,\n    },"),
+        (E, "        let v = eval_expr(context, scopes, &item.expr)\n            .context(EvalListItemFailed)?;",
+            "        let v =\n            if item.is_spread {\n                eval_expr(context, scopes, &item.expr)\n                    .context(EvalSpreadSourceFailed)?\n            } else {\n                eval_expr(context, scopes, &item.expr)\n                    .context(EvalListItemFailed)?\n            };")],
+       [("C17", "L1")], note="the realistic regression: a new context variant not listed in main.rs")
+mutant("c17-bare-leaf-error",
+       [(E, "                if *collect {\n                return new_loc_err(Error::ListCollectOutsideDestructure);",
+            "                if *collect {\n                return Err(Error::ListCollectOutsideDestructure);"),
+        ],
+       [("C17", "L3")])
